@@ -303,6 +303,8 @@ def evaluate(case):
         for k, ev in enumerate(events):
             if ev.call in ("read", "pread64", "mmap") and not is_validation(k) and k + 1 < len(events):
                 plan.append((k, "EIO", k + 1))
+                if k + 2 < len(events):
+                    plan.append((k, "EIO", k + 2))      # (the descriptor is closed in between)
         if case["pairs"]:
             plan = [(k1, "EIO", k2) for k1 in range(len(events)) for k2 in range(k1 + 1, len(events))
                     if not is_validation(k1) and not is_validation(k2)]
@@ -407,7 +409,8 @@ def evaluate(case):
                                  detail="%s: groups %s; expected the fault-free result %s or the result of the tree without a subset of %s" % (
                                      ctx, sorted(map(sorted, obs_groups)), sorted(map(sorted, base_groups)), aff_scanned),
                                  replay_case=rc_case))
-            elif accepted and e != "ENOENT" and k2 is None and not warned(res["err"]):
+            elif accepted and e != "ENOENT" and not warned(res["err"]):
+                # (also for two faults: neither EIO nor EACCES says that the entry is gone)
                 viol.append(dict(feat, kind="no_warning", filter=" ".join(flt) or "default",
                                  detail="%s: result equals the tree without %s, but no warning was logged" % (ctx, sorted(accepted)),
                                  replay_case=rc_case))
